@@ -117,7 +117,7 @@ use vpe3::{Backend, BbD4, Deviation, Fault, Fixture, Inputs, KbD4, KbD5, Port, V
 
 thread_local! {
     /// (call k, output limb j, permutation calls per execution of the circuit)
-    static PLAN: Cell<Option<(usize, usize, usize)>> = const { Cell::new(None) };
+    static PLAN: Cell<Option<(usize, usize, usize, bool)>> = const { Cell::new(None) };
     static CALLS: Cell<usize> = const { Cell::new(0) };
 }
 
@@ -131,13 +131,22 @@ struct DevPerm<P>(P);
 
 impl<F: PrimeCharacteristicRing + Clone, P: Permutation<[F; 16]>> Permutation<[F; 16]> for DevPerm<P> {
     fn permute_mut(&self, x: &mut [F; 16]) {
+        let Some((k, j, n, on_input)) = PLAN.get() else {
+            self.0.permute_mut(x);
+            return;
+        };
+        let c = CALLS.get();
+        CALLS.set(c + 1);
+        let hit = c % n.max(1) == k;
+        // class PI: the k-th call permutes a state whose INPUT limb j is incremented (the
+        // executor has already recorded its own, honest, input limbs; the caller edits the
+        // recorded row to match)
+        if hit && on_input {
+            x[j] += F::ONE;
+        }
         self.0.permute_mut(x);
-        if let Some((k, j, n)) = PLAN.get() {
-            let c = CALLS.get();
-            CALLS.set(c + 1);
-            if c % n.max(1) == k {
-                x[j] += F::ONE;
-            }
+        if hit && !on_input {
+            x[j] += F::ONE;
         }
     }
 }
@@ -241,8 +250,17 @@ enum Act {
     Sample,
     SampleExt,
     Bits3,
+    /// observe AGAIN the target of the most recent `op` (same target at two transcript positions)
+    ReObs,
+    /// observe_ext again the target of the most recent `xp`
+    ReObsExt,
+    /// observe the target returned by the most recent `s`
+    ObsSample,
 }
 const ALPHABET: [Act; 5] = [Act::Obs, Act::Sample, Act::ObsExt, Act::SampleExt, Act::Bits3];
+/// Actions that re-use an existing target; only inside histories of length <= the re-observe
+/// depth bound (see `bfs_states`).
+const REUSE: [Act; 3] = [Act::ReObs, Act::ReObsExt, Act::ObsSample];
 
 impl Act {
     fn token(&self) -> &'static str {
@@ -252,6 +270,9 @@ impl Act {
             Act::Sample => "s",
             Act::SampleExt => "sx",
             Act::Bits3 => "b3",
+            Act::ReObs => "ro",
+            Act::ReObsExt => "rx",
+            Act::ObsSample => "os",
         }
     }
     fn parse(t: &str) -> Option<Act> {
@@ -261,8 +282,25 @@ impl Act {
             "s" => Act::Sample,
             "sx" => Act::SampleExt,
             "b3" => Act::Bits3,
+            "ro" => Act::ReObs,
+            "rx" => Act::ReObsExt,
+            "os" => Act::ObsSample,
             _ => return None,
         })
+    }
+}
+impl Act {
+    fn reuse(&self) -> bool {
+        REUSE.contains(self)
+    }
+    /// a re-use action needs the target it re-uses
+    fn applicable(&self, h: &[Act]) -> bool {
+        match self {
+            Act::ReObs => h.contains(&Act::Obs),
+            Act::ReObsExt => h.contains(&Act::ObsExt),
+            Act::ObsSample => h.contains(&Act::Sample),
+            _ => true,
+        }
     }
 }
 fn show(h: &[Act]) -> String {
@@ -385,6 +423,10 @@ fn replay<B: Cfg>(
         }
         roles.push(Role::Out);
     };
+    let mut last_obs: Option<(ExprId, B::BF)> = None;
+    let mut last_obs_ext: Option<(ExprId, B::EF)> = None;
+    let mut last_sample: Option<(ExprId, B::BF)> = None;
+    let mut reuse_seen = [false; 3];
     for (step, a) in hist.iter().enumerate() {
         let before = nat.sponge_state;
         match a {
@@ -395,6 +437,7 @@ fn replay<B: Cfg>(
                 publics.push(emb::<B>(v));
                 roles.push(Role::Obs);
                 RecursiveChallenger::<B::BF, B::EF>::observe(&mut cc, &mut b, t);
+                last_obs = Some((t, v));
             }
             Act::ObsExt => {
                 let v = B::EF::from_basis_coefficients_fn(|j| tag_value::<B::BF>(seed, step, j + 1));
@@ -403,11 +446,31 @@ fn replay<B: Cfg>(
                 publics.push(v);
                 roles.push(Role::ObsExt);
                 RecursiveChallenger::<B::BF, B::EF>::observe_ext(&mut cc, &mut b, t);
+                last_obs_ext = Some((t, v));
+            }
+            Act::ReObs => {
+                let (t, v) = last_obs.ok_or("ro without a previous op")?;
+                reuse_seen[0] = true;
+                nat.observe(v);
+                RecursiveChallenger::<B::BF, B::EF>::observe(&mut cc, &mut b, t);
+            }
+            Act::ReObsExt => {
+                let (t, v) = last_obs_ext.ok_or("rx without a previous xp")?;
+                reuse_seen[1] = true;
+                nat.observe_algebra_element(v);
+                RecursiveChallenger::<B::BF, B::EF>::observe_ext(&mut cc, &mut b, t);
+            }
+            Act::ObsSample => {
+                let (t, v) = last_sample.ok_or("os without a previous s")?;
+                reuse_seen[2] = true;
+                nat.observe(v);
+                RecursiveChallenger::<B::BF, B::EF>::observe(&mut cc, &mut b, t);
             }
             Act::Sample => {
                 let exp: B::BF = nat.sample();
                 let t = RecursiveChallenger::<B::BF, B::EF>::sample(&mut cc, &mut b);
                 expose(&mut b, &mut publics, &mut roles, t, emb::<B>(exp));
+                last_sample = Some((t, exp));
             }
             Act::SampleExt => {
                 let exp: B::EF = nat.sample_algebra_element();
@@ -437,7 +500,9 @@ fn replay<B: Cfg>(
     // REFINED by "a sample_bits happened": for the challenger state `sample_bits` is `sample`,
     // so C05's key never needs a history containing it, but its bit decomposition (hint +
     // boolean checks + recomposition) is one of the things C06 quantifies over. A refinement
-    // only adds histories.
+    // only adds histories. Likewise refined by "which target re-use actions happened" (ro / rx /
+    // os): the challenger state does not know whether two buffered targets are the SAME
+    // target, the permutation row built from them does.
     let (cs, ci, co, init, dup) = cc.verif_snapshot();
     let is_const: Vec<bool> = b.verif_snapshot().0.iter().map(|n| matches!(n, Expr::Const(_))).collect();
     let mask = |ts: &[ExprId]| -> String {
@@ -446,7 +511,7 @@ fn replay<B: Cfg>(
             .collect()
     };
     let key = format!(
-        "n{}:{} c{}:{} st{} i{} d{} m{}/{}/{} p{} e{} b{}",
+        "n{}:{} c{}:{} st{} i{} d{} m{}/{}/{} p{} e{} b{} r{}{}{}",
         nat.input_buffer.len(),
         nat.output_buffer.len(),
         ci.len(),
@@ -459,7 +524,10 @@ fn replay<B: Cfg>(
         mask(&co),
         native_perms.min(3),
         sample_ext_seen as u8,
-        sample_bits_seen as u8
+        sample_bits_seen as u8,
+        reuse_seen[0] as u8,
+        reuse_seen[1] as u8,
+        reuse_seen[2] as u8
     );
     let circuit = if build { Some(b.build().map_err(|e| format!("build: {e:?}"))?) } else { None };
     Ok(Replayed { key, circuit, publics, roles, native_perms })
@@ -516,6 +584,12 @@ fn judge<B: Cfg>(
         pos += 1;
         Ok((p, committed[p]))
     };
+    // target re-use: the committed value of a re-observed target is the committed value of the
+    // public input it is; a re-observed SAMPLE is the native sample (a committed sample that
+    // differs from it is a mismatch already)
+    let mut last_obs: Option<B::BF> = None;
+    let mut last_obs_ext: Option<B::EF> = None;
+    let mut last_sample: Option<B::BF> = None;
     for (step, a) in hist.iter().enumerate() {
         match a {
             Act::Obs => {
@@ -528,13 +602,19 @@ fn judge<B: Cfg>(
                     ));
                 }
                 nat.observe(c[0]);
+                last_obs = Some(c[0]);
             }
             Act::ObsExt => {
                 let (_, v) = next(Role::ObsExt)?;
                 nat.observe_algebra_element(v);
+                last_obs_ext = Some(v);
             }
+            Act::ReObs => nat.observe(last_obs.ok_or("ro without a previous op")?),
+            Act::ReObsExt => nat.observe_algebra_element(last_obs_ext.ok_or("rx without a previous xp")?),
+            Act::ObsSample => nat.observe(last_sample.ok_or("os without a previous s")?),
             Act::Sample => {
                 let exp: B::BF = nat.sample();
+                last_sample = Some(exp);
                 let (p, v) = next(Role::Out)?;
                 if v != emb::<B>(exp) * kc && mismatch.is_none() {
                     mismatch = Some(format!(
@@ -600,6 +680,9 @@ enum Dev {
     Honest,
     Fault(Fault),
     Perm { call: usize, limb: usize },
+    /// class PI: INPUT base limb `limb` of permutation call `call` is incremented in the state
+    /// that is permuted and in the recorded row, the slot feeding it keeps its value
+    PermIn { call: usize, limb: usize },
 }
 impl Dev {
     fn to_json(&self) -> Value {
@@ -607,6 +690,7 @@ impl Dev {
             Dev::Honest => json!({"kind": "honest"}),
             Dev::Fault(f) => json!({"kind": "fault", "fault": f.to_json()}),
             Dev::Perm { call, limb } => json!({"kind": "perm", "call": call, "limb": limb}),
+            Dev::PermIn { call, limb } => json!({"kind": "perm-in", "call": call, "limb": limb}),
         }
     }
     fn from_json(v: &Value) -> Option<Dev> {
@@ -614,6 +698,10 @@ impl Dev {
             "honest" => Dev::Honest,
             "fault" => Dev::Fault(Fault::from_json(v.get("fault")?)?),
             "perm" => Dev::Perm {
+                call: v.get("call")?.as_u64()? as usize,
+                limb: v.get("limb")?.as_u64()? as usize,
+            },
+            "perm-in" => Dev::PermIn {
                 call: v.get("call")?.as_u64()? as usize,
                 limb: v.get("limb")?.as_u64()? as usize,
             },
@@ -1053,7 +1141,7 @@ impl<B: Cfg> DynFx for Fx<B> {
             }
             Dev::Fault(f) => self.fx.apply(f),
             Dev::Perm { call, limb } => {
-                PLAN.set(Some((*call, *limb, self.perm_ops.len())));
+                PLAN.set(Some((*call, *limb, self.perm_ops.len(), false)));
                 CALLS.set(0);
                 let r = self.fx.forge(&Deviation { adapt_publics: true, ..Deviation::none() });
                 PLAN.set(None);
@@ -1214,7 +1302,11 @@ fn all_instances() -> Vec<Box<dyn DynCfg>> {
 /// state, in BFS order. (Equal keys ⇒ equal futures is C05's argument; here the key only
 /// selects which histories get a circuit, so a coarser or finer key changes coverage, never a
 /// verdict.)
-fn bfs_states(cfg: &dyn DynCfg, depth: usize, seed: u64) -> Result<(Vec<Vec<Act>>, usize), String> {
+///
+/// The target re-use actions (`ro`, `rx`, `os`) only occur inside histories of length
+/// <= `rdepth`: a history containing one is not extended beyond that length. Their keys carry
+/// the re-use flags, so they never displace a history over the base alphabet.
+fn bfs_states(cfg: &dyn DynCfg, depth: usize, rdepth: usize, seed: u64) -> Result<(Vec<Vec<Act>>, usize), String> {
     let mut seen: HashSet<String> = HashSet::new();
     seen.insert(cfg.state_key(&[], seed)?);
     let mut out: Vec<Vec<Act>> = vec![vec![]];
@@ -1224,11 +1316,17 @@ fn bfs_states(cfg: &dyn DynCfg, depth: usize, seed: u64) -> Result<(Vec<Vec<Act>
         let cands: Vec<Vec<Act>> = frontier
             .iter()
             .flat_map(|h| {
-                ALPHABET.iter().map(move |a| {
-                    let mut x = h.clone();
-                    x.push(*a);
-                    x
-                })
+                let short = h.len() < rdepth;
+                let has_reuse = h.iter().any(|a| a.reuse());
+                ALPHABET
+                    .iter()
+                    .filter(move |_| !has_reuse || short)
+                    .chain(REUSE.iter().filter(move |a| short && a.applicable(h)))
+                    .map(move |a| {
+                        let mut x = h.clone();
+                        x.push(*a);
+                        x
+                    })
             })
             .collect();
         let keys: Vec<Result<String, String>> = cands.par_iter().map(|h| cfg.state_key(h, seed)).collect();
@@ -1312,12 +1410,14 @@ fn main() {
     let ddepth_opt: Option<usize> = ctx.opt("ddepth").and_then(|s| s.parse().ok());
     let direct_depth_of =
         |c: &dyn DynCfg| ddepth_opt.unwrap_or(if ctx.quick() { 2 } else { 4 }).min(depth_of(c));
+    // target re-use actions inside histories of length <= rdepth (quick 2, thorough 3)
+    let rdepth: usize = ctx.opt("rdepth").and_then(|s| s.parse().ok()).unwrap_or(if ctx.quick() { 2 } else { 3 });
     let mut variants: Vec<(usize, Mode)> = vec![]; // (index into `selected`, mode)
     let mut plan: Vec<(usize, Vec<Act>)> = vec![]; // (variant index, history without the final sample)
     let mut total_states = 0usize;
     let mut total_transitions = 0usize;
     for (ci, cfg) in selected.iter().enumerate() {
-        let (hs, tr) = bfs_states(cfg.as_ref(), depth_of(cfg.as_ref()), ctx.seed)
+        let (hs, tr) = bfs_states(cfg.as_ref(), depth_of(cfg.as_ref()), rdepth, ctx.seed)
             .unwrap_or_else(|e| machinery_error(&format!("{}: automaton exploration: {e}", cfg.name())));
         total_states += hs.len();
         total_transitions += tr;
@@ -1593,8 +1693,10 @@ fn main() {
         "samples": *samples.lock().unwrap(),
         "exhaustive": exhaustive,
         "depth_bound": depth,
-        "alphabet": ALPHABET.iter().map(|a| a.token()).collect::<Vec<_>>(),
-        "alphabet_legend": "op observe(public base element); xp observe_ext(public extension element); s sample; sx sample_ext; b3 sample_bits(3); every history is followed by one more s",
+        "alphabet": ALPHABET.iter().chain(REUSE.iter()).map(|a| a.token()).collect::<Vec<_>>(),
+        "alphabet_legend": "op observe(public base element); xp observe_ext(public extension element); s sample; sx sample_ext; b3 sample_bits(3); target re-use (only inside histories of length <= reuse_depth_bound): ro observe again the target of the most recent op; rx observe_ext again the target of the most recent xp; os observe the target returned by the most recent s; every history is followed by one more s",
+        "reuse_depth_bound": rdepth,
+        "histories_with_target_reuse": plan.iter().filter(|(_, h)| h.iter().any(|a| a.reuse())).count(),
         "configurations": per_cfg,
         "histories_skipped_honest_circuit_does_not_prove": skipped_count,
         "histories_skipped_first_error": skipped_cfg,
